@@ -199,6 +199,21 @@ PROPS['C01']['scenarios'] = (lambda old: (lambda tier, seed: old(tier, seed) + [
 PROPS['C01']['scenarios'] = (lambda old: (lambda tier, seed: old(tier, seed) + [{'args': ['sigrecv', '--tier', tier]}]))(PROPS['C01']['scenarios'])
 PROPS['C01']['rule'] += ('; plus typed values (one string, a sequence of medium-sized strings, halves next to an embedded sender) whose encoding lies on both sides of '
                          'every power of two from 1 MiB to 64 MiB (thorough: 256 MiB), through recv / try_recv_timeout / receiver set + to, on the OS and the in-process transport')
+# a send that follows a refused one (failing Serialize impl, failing transport, at any nesting depth) on the same thread must carry
+# exactly its own value's bytes (seed C01-6: a reused per-thread serialisation buffer kept the refused send's partial bytes)
+PROPS['C01']['scenarios'] = (lambda old: (lambda tier, seed: old(tier, seed) + wire_scen('side', 600, 8000)(tier, seed)))(PROPS['C01']['scenarios'])
+def search_c01(run):
+    # a serialisation program on which the real send and the model disagree about the bytes of a message is a concrete failing input
+    for t in run.t_broken:
+        if t.get('request', '').startswith('side '):
+            return {'implementation_vs_specification': {'program': t['request'], 'real_crate': t.get('impl'), 'model': t.get('model')},
+                    'replay_cmd': 'harness/target-default/debug/vh ' + ' '.join(t.get('scenario', []))}
+    return search_frag(run)
+
+
+PROPS['C01']['search'] = search_c01
+PROPS['C01']['rule'] += ('; plus serialisation programs with refused sends (failing node / failing transport, nested) followed by an accepted send on the same '
+                         'thread: bytes of every OS-level message compared with the model')
 PROPS['C01']['rule'] += ('; plus seeded (schema, value) pairs (nested options/sequences/tuples/enums/strings/ints, with embedded endpoints) sent through the real '
                          'IpcSender::send: wire bytes compared with the model encoder and the received value with the model decoder')
 
